@@ -118,6 +118,23 @@ fn c12_faults_surface_as_err() {
             read_faults += 1;
         }
     }
+    // --- nothing fails: no error may be reported, whatever the sizes (keys up to 1 MiB, one value above 16 MiB) ---
+    for (klen, vlen) in [(0usize, 10usize), (255, 0), (65_535, 3), (65_536, 3), (70_000, 1000), (1 << 20, 5), (9, 17 * 1024 * 1024 + 1)] {
+        let es: Entries = vec![(vec![b'a'], b"first".to_vec()), (vec![b'k'; klen.max(1)], vec![7u8; vlen]), (vec![b'z'; 3], b"last".to_vec())];
+        let cfg = Cfg { ct: grenad::CompressionType::None, level: 0, block_size: 1024, interval: 2, levels: 1 };
+        let r = catch_unwind(AssertUnwindSafe(|| -> Result<usize, String> {
+            let mut w = cfg.builder().memory();
+            for (k, v) in &es { w.insert(k, v).map_err(|e| format!("Writer::insert: Io[{:?}] {}", e.kind(), e))?; }
+            let bytes = w.into_inner().map_err(|e| format!("Writer::into_inner: Io[{:?}] {}", e.kind(), e))?;
+            let mut c = Reader::new(Cursor::new(bytes)).map_err(|e| format!("Reader::new: {}", err_str(&e)))?.into_cursor().map_err(|e| format!("into_cursor: {}", err_str(&e)))?;
+            let mut n = 0; while let Some(_) = c.move_on_next().map_err(|e| format!("move_on_next: {}", err_str(&e)))? { n += 1; }
+            c.reset(); while let Some(_) = c.move_on_prev().map_err(|e| format!("move_on_prev: {}", err_str(&e)))? { n += 1; }
+            for (k, _) in &es { if c.move_on_key_equal_to(k).map_err(|e| format!("move_on_key_equal_to: {}", err_str(&e)))?.is_none() { return Err("an inserted key is not found".into()); } }
+            Ok(n) }));
+        match r { Err(_) => cex(format!("C12 panic although no component failed: a {}-byte key with a {}-byte value written to memory and read back", klen.max(1), vlen)),
+            Ok(Err(e)) => cex(format!("C12 error reported although no component failed ({}-byte key, {}-byte value, in-memory sink and source): {}", klen.max(1), vlen, e)),
+            Ok(Ok(n)) => if n != 6 { cex(format!("C12 scans returned {} entries instead of 2 x 3 ({}-byte key, {}-byte value)", n, klen.max(1), vlen)); } }
+    }
     // --- merge function fails at its n-th call; chunk creator fails; chunk I/O fails: through Sorter and Merger ---
     // `fired` records that the injected failure really happened: from then on the public call in progress must return Err
     #[derive(Clone)] struct Flaky { n: Rc<Cell<usize>>, fail_at: usize, fired: Rc<Cell<bool>> }
